@@ -13,6 +13,7 @@ package merge
 
 //@ func (*RowResolver).tryResolve
 //@   props C05
+//@   loop-candidates
 //@   requires resolverWf(r) && mergeWf(r, m)
 //@   modifies m.*, r.rows.*, region(r.rows.Values), region(r.rows.Layers)
 //@   final [C05] err == nil ==> len(m.ResolvedRow) == r.nCols && keptAll(r, m, baseRow, r.nCols)
